@@ -4,4 +4,5 @@ CONSTANTS
   Dts <- MCDts
   Spans <- MCSpans
 INVARIANT EndsRight
+INVARIANT Fixpoint
 CHECK_DEADLOCK FALSE
